@@ -241,14 +241,14 @@ def shard_inputs(ty, tier):
 
 def shard_setters(_, tier):
     ck = core.Checker(PROPERTY_ID)
-    cases = [(["argon2_setter parallelism 0"], ["ERR:ParallelismZero"], None), (["argon2_setter parallelism 1"], ["OK"], None),
-             (["argon2_setter parallelism %d" % (2 ** 24 - 1)], ["OK"], None), (["argon2_setter parallelism %d" % (2 ** 24)], ["ERR:ParallelismTooHigh"], None),
-             (["argon2_setter parallelism %d" % (2 ** 32 - 1)], ["ERR:ParallelismTooHigh"], None),
-             (["argon2_setter iterations 0"], ["ERR:IterationsZero"], None), (["argon2_setter iterations 1"], ["OK"], None),
+    cases = [(["argon2_setter parallelism 0"], [{"prefix": "ERR:"}], None), (["argon2_setter parallelism 1"], ["OK"], None),
+             (["argon2_setter parallelism %d" % (2 ** 24 - 1)], ["OK"], None), (["argon2_setter parallelism %d" % (2 ** 24)], [{"prefix": "ERR:"}], None),
+             (["argon2_setter parallelism %d" % (2 ** 32 - 1)], [{"prefix": "ERR:"}], None),
+             (["argon2_setter iterations 0"], [{"prefix": "ERR:"}], None), (["argon2_setter iterations 1"], ["OK"], None),
              (["argon2_setter iterations %d" % (2 ** 32 - 1)], ["OK"], None),
              (["argon2_setter version 16"], ["OK"], None), (["argon2_setter version 19"], ["OK"], None)]
     for v in (0, 1, 15, 17, 18, 20, 0x1300, 0x100013, 2 ** 32 - 1):
-        cases.append((["argon2_setter version %d" % v], ["ERR:UnknownVersion"], None))
+        cases.append((["argon2_setter version %d" % v], [{"prefix": "ERR:"}], None))
     cases.append((["argon2_setter memory_kb 8"], ["OK"], None))
     ck.run(cases)
     ck.stats.states = len(cases)
